@@ -369,6 +369,11 @@ def configs(tier, rng):
            'kw': rng.random() < 0.25}
     if i % 6 == 2:
       cfg['model'] = 'plain2'
+    if tier == 'quick' and cfg['model'] == 'dict':
+      cfg['pkind'] = cfg['bkind'] = 'dict'        # every new params / batch container kind re-traces ~45 metric configurations
+    elif tier == 'quick':
+      cfg['pkind'] = ['tuple', 'namedtuple', 'none', 'ordered'][i % 4]
+      cfg['bkind'] = 'ordered' if i % 2 else 'dict'
     if cfg['model'] != 'dict' and i % 2 == 0:
       cfg['ctx'] = 'nojit'                         # jax.disable_jit() around the whole call (small models only: eager is slow)
     out.append(cfg)
@@ -454,7 +459,8 @@ def evaluator_configs(tier, rng):
       empty = rng.choice([[], [], [{'rows': [_garbage(rng), _garbage(rng)], 'mask': [False, False]}]])
       clients.insert(rng.randrange(0, len(clients) + 1) if c else len(clients), empty)
       calls.append({'mode': rng.choice(['global', 'per_client']), 'clients': clients})
-    yield {'pool_seed': seed, 'backend': backend, 'calls': calls, 'model': 'plain' if i % 4 == 2 else 'dict',
+    yield {'pool_seed': seed, 'backend': backend, 'calls': calls,
+           'model': 'plain' if (i % 4 == 2 or (tier == 'quick' and backend == 'debug')) else 'dict',
            'interleave': i % 4 in (1, 2), 'idtype': ['bytes', 'str', 'int', 'sentinel'][i % 4]}
 
 
